@@ -699,6 +699,50 @@ example : (⟨1, 1, true, 3, [], 0⟩ : Org).WF ∧ (allocate ⟨1, 1, true, 3, 
     ∧ ReuseOK ⟨1, 1, true, 3, [], 0⟩ (fun _ => Img.empty ⟨1, 1, true, 3, [], 0⟩ 0) (allocate ⟨1, 1, true, 3, [], 0⟩ (fun _ => 6) 2 2 4) [⟨.dimsFill, 5, 1, 0, true⟩]
     ∧ (recreateAll ⟨1, 1, true, 3, [], 0⟩ (fun _ => Img.empty ⟨1, 1, true, 3, [], 0⟩ 0) (allocate ⟨1, 1, true, 3, [], 0⟩ (fun _ => 6) 2 2 4) [⟨.dimsFill, 5, 1, 0, true⟩]).plane 2 = 10 := by decide
 
+/-! ### copy construction, copy assignment, recreate with reallocation -/
+
+theorem C01_kernel_copy (w h iw ih br a d1 d2 : Int) :
+    assign_branch w h iw ih br = (if w = iw ∧ h = ih then 0 else 1) ∧ copy_ctor_align a = a ∧ copy_ctor_dims iw ih d1 d2 = (iw, ih) := by
+  unfold assign_branch copy_ctor_align copy_ctor_dims
+  refine ⟨by recreate_eq, by first | rfl | omega, by first | rfl | (ext <;> simp only [] <;> omega)⟩
+
+/-- **copy construction and copy assignment**: the copy is a fresh image of the source's dimensions and alignment (in bounds of ITS
+    block by `C01_allocate`); assignment between images of equal dimensions keeps the destination's storage and view
+    (`copy_pixels` touches in-range pixels of both), otherwise the destination becomes such a fresh copy -/
+theorem C01_copy_assign_in_bounds (o : Org) (addr : Int → Int) (dst src : Img) (hwf : o.WF) (hd : dst.InBounds o)
+    (hno : NoOvf o src.view.w src.view.h src.a (addr (allocBytes o src.view.w src.view.h src.a))) :
+    (copyConstruct o addr src).InBounds o
+    ∧ (copyConstruct o addr src).allocated = allocBytes o src.view.w src.view.h src.a
+    ∧ (assign o addr dst src).InBounds o
+    ∧ ((dst.view.w = src.view.w ∧ dst.view.h = src.view.h) → assign o addr dst src = dst) := by
+  obtain ⟨k1, k2, k3⟩ := C01_kernel_copy dst.view.w dst.view.h src.view.w src.view.h 0 src.a 0 0
+  have hc : copyConstruct o addr src = allocate o addr src.view.w src.view.h src.a := by
+    unfold copyConstruct; rw [k2, k3]
+  obtain ⟨a1, _, _, _, _, a6⟩ := C01_allocate o addr src.view.w src.view.h src.a hwf hno
+  refine ⟨by rw [hc]; exact a6, by rw [hc]; exact a1, ?_, ?_⟩
+  · unfold assign; rw [k1]
+    by_cases he : dst.view.w = src.view.w ∧ dst.view.h = src.view.h
+    · simp only [he, and_self, if_true]; exact hd
+    · simp only [he, if_false, show ¬ ((1 : Int) = 0) by decide]; rw [hc]; exact a6
+  · intro h; unfold assign; rw [k1]; simp [h]
+
+/-- **recreate, every branch**: after ANY sequence of `recreate` calls -- whether they do nothing, re-lay the view over the old
+    storage or build a new image and swap -- every in-range pixel of every view derived from the image's current view lies inside
+    the block the image owns at that moment -/
+theorem C01_recreate_any_in_bounds (o : Org) (hwf : o.WF) (addr : Int → Int) (s0 : Img) (calls : List Call)
+    (hin : s0.InBounds o) (hok : CallsOK o addr s0 calls) :
+    (recreateAll o (fun c => allocate o addr c.w c.h c.a) s0 calls).InBounds o := by
+  induction calls generalizing s0 with
+  | nil => exact hin
+  | cons c cs ih =>
+    obtain ⟨hno, hno', hrest⟩ := hok
+    refine ih _ ?_ hrest
+    by_cases hb : (recreateK o c.ov s0 c.w c.h c.a c.allocEq).2 = 2
+    · have : recreate o (fun c => allocate o addr c.w c.h c.a) s0 c = allocate o addr c.w c.h c.a := by
+        unfold recreate; simp [hb]
+      rw [this]; exact (C01_allocate o addr c.w c.h c.a hwf hno').2.2.2.2.2
+    · exact (C01_recreate_step o hwf _ s0 c hin hno hb).2.2
+
 /-! ### access by iterator and by locator (through C03) -/
 
 section
